@@ -1,2 +1,33 @@
-(* C13 placeholder *)
-From Rdest Require Import Base Consts Wire Manager.
+(* C13 — piece choice is rarest-first among what the peer can give. *)
+From Coq Require Import Permutation.
+From Rdest Require Import Base Consts Wire Manager MgrProofs.
+Open Scope N_scope.
+
+(* choose_piece_index with its shuffle made an argument: for EVERY permutation the shuffle can
+   produce, the piece returned satisfies the rarest-first relation pick_ok ... *)
+Theorem C13_pick : forall m p shuffled, Permutation shuffled (rarest_list m) ->
+  pick_ok m p (choose_with shuffled p) = true.
+Proof. exact choose_with_ok. Qed.
+
+(* ... which reads: the pick is advertised by the peer, lacked by the client, not already being
+   fetched unless fewer than ten pieces remain, and no other such piece is advertised by fewer
+   connected peers; nothing is picked exactly when no such piece exists. *)
+Theorem C13_pick_spec : forall m p pick, pick_ok m p pick = true -> PickSpec m p pick.
+Proof. exact pick_ok_spec. Qed.
+
+(* the set the correspondence tests membership in contains only picks satisfying the relation *)
+Theorem C13_allowed : forall m p pick, In pick (allowed_picks m p) -> pick_ok m p pick = true.
+Proof. exact allowed_picks_ok. Qed.
+
+Check C13_pick : forall m p shuffled, Permutation shuffled (rarest_list m) -> pick_ok m p (choose_with shuffled p) = true.
+
+(* non-vacuity: a state with two peers and three pieces on which the relation is decisive *)
+Definition ex_peer1 := mkpeer None [true; true; true] None false true false false false None None.
+Definition ex_peer2 := mkpeer None [true; false; false] None false true false false false None None.
+Definition ex_m := mkmgr [Missing; Missing; Have] [(1, ex_peer1); (2, ex_peer2)] [] 0 false [4; 4; 2].
+Example C13_nonvacuous : choose_with (rarest_list ex_m) ex_peer1 = Some 1 /\ pick_ok ex_m ex_peer1 (Some 0) = false.
+Proof. vm_compute. split; reflexivity. Qed.
+
+Print Assumptions C13_pick.
+Print Assumptions C13_pick_spec.
+Print Assumptions C13_allowed.
